@@ -8,5 +8,5 @@ Cd "../ocaml/gen".
 Extraction "tcp_model.ml" tcp_new tcp_step iface_poll_egress iface_poll_at reno_new
   control_of_flags wire_clamp_wscale
   tcp_may_send tcp_may_recv tcp_can_send tcp_can_recv tcp_send_queue tcp_recv_queue
-  l_len repr_header_len.
+  l_len repr_header_len tcp_is_listening tcp_is_active tcp_is_open tcp_step_x.
 Cd "../../coq".
